@@ -69,3 +69,35 @@ pub fn s_format(_args: core::fmt::Arguments<'_>) -> String {
 pub fn s_call_once<F: FnOnce()>(_o: &std::sync::Once, f: F) {
     f()
 }
+
+// ---- S-CASE: std case tables replaced by a model on the witness alphabet SIGMA_CASE -----------------
+// (validated against the real std functions on every witness by harness c10_model_valid)
+pub fn st_to_lower(c: char) -> [char; 3] {
+    match crate::oracle::case_to_lower(c) {
+        Some(a) => a,
+        None => {
+            assert!(false, "MODEL: character outside the case-mapping witness alphabet");
+            [c, '\0', '\0']
+        }
+    }
+}
+
+pub fn st_lowercase_lookup(c: char) -> bool {
+    match crate::oracle::case_is_lowercase(c) {
+        Some(b) => b,
+        None => {
+            assert!(false, "MODEL: character outside the case-mapping witness alphabet");
+            false
+        }
+    }
+}
+
+// ---- S-WIDTH: the width table lookup replaced by the oracle function (Layer A: c11_width_one) ---------
+pub fn st_width(cp: u32) -> Option<u32> {
+    let m = crate::oracle::width_map(cp);
+    if m == 0 {
+        None
+    } else {
+        Some(m)
+    }
+}
